@@ -341,6 +341,8 @@ impl Prop for C14 {
         out.set_exhaustive("mweeks", env.tier == Tier::Thorough);
       }
       "dweek" => {
+        // strided walks on fresh threads (see engine::stride_walks)
+        stride_walks(env, out, "dweek", env.tier.pick(1600, 48000) / nshards as u32, 7000 + shard as u64, 40, (crate::model::NDAYS as i64) - 40, 800, &|x| vec![x, x.rem_euclid(7), (x / 7).rem_euclid(9) - 4, 0], &ev);
         if shard == 0 {
           for i in c.index(1582, 9, 28).unwrap()..=c.index(1582, 11, 3).unwrap() {
             for s in 0..7 {
